@@ -1,10 +1,9 @@
 #!/bin/sh
-# setup_cmd: build the Lean project (model, proofs, property theorems, drivers) and the Rust
-# harness against /repo's working tree, offline, from files on disk only.
+# setup_cmd: build the Lean targets (model, proofs, property theorems, drivers) and the Rust
+# harness bins needed by the checks claimed in MANIFEST.json, offline, from files on disk only.
 set -e
 cd "$(dirname "$0")"
 export CARGO_NET_OFFLINE=true
 mkdir -p .cache evidence replays
-( cd lean && lake build && lake build $(grep -E '^name = "drv_' lakefile.toml | sed 's/name = "\(.*\)"/\1/') )
-( cd harness && RUSTFLAGS="--cfg qmc_verif --cap-lints warn" CARGO_TARGET_DIR=/verif/.cache/target cargo build --offline --quiet --bins )
+./check --setup
 echo "setup ok"
